@@ -386,6 +386,21 @@ where
     }
 }
 
+/// A column of string cells that are spans of ONE shared buffer: `Index<usize, Output = str>` (an
+/// unsized item type).  Two columns over the same buffer hold cells that start at the same address.
+struct Column<'a> {
+    buf: &'a str,
+    spans: Vec<(usize, usize)>,
+}
+
+impl std::ops::Index<usize> for Column<'_> {
+    type Output = str;
+    fn index(&self, i: usize) -> &str {
+        let (s, l) = self.spans[i];
+        &self.buf[s..s + l]
+    }
+}
+
 pub fn families() -> Vec<Box<dyn Family>> {
     vec![
         family(
@@ -778,6 +793,74 @@ pub fn families() -> Vec<Box<dyn Family>> {
                     idd_case::<u16>("u16", &pa, or, &pb, nr, Algorithm::Myers, out);
                 } else {
                     idd_case::<u8>("u8", &pa, or, &pb, nr, Algorithm::Myers, out);
+                }
+            },
+        ),
+        family(
+            "identify_distinct_unsized_views",
+            "IdentifyDistinct over user-defined containers whose items are UNSIZED (`Index<usize, Output = str>`): old and new are two columns of spans over ONE shared buffer, so cells at the same position often start at the same address but differ in length (`de` against `d`, an empty cell against data): ids equal <=> cells equal (all pairs, within and across sides), diff through the lookups == diff of the columns x 3 algorithms",
+            false,
+            16,
+            |cfg| cfg.n(4_000, 80_000),
+            |idx, cfg, out| {
+                let mut rng = Rng::for_case(cfg.seed, "c14.idd_unsized", idx);
+                let alpha = *rng.pick(&[1usize, 2, 3]);
+                let buf: String = (0..if cfg.tiny { 8 } else { 24 }).map(|_| (b'a' + rng.below(alpha) as u8) as char).collect();
+                let n = 1 + rng.below(if cfg.tiny { 4 } else { 12 });
+                let old_spans: Vec<(usize, usize)> = (0..n).map(|_| { let s = rng.below(buf.len()); (s, rng.below((buf.len() - s).min(4) + 1)) }).collect();
+                let new_spans: Vec<(usize, usize)> = (0..n + rng.below(3))
+                    .map(|i| match old_spans.get(i) {
+                        // same start, maybe another length
+                        Some((s, l)) if rng.chance(2, 3) => (*s, if rng.chance(1, 2) { *l } else { rng.below((buf.len() - s).min(4) + 1) }),
+                        _ => { let s = rng.below(buf.len()); (s, rng.below((buf.len() - s).min(4) + 1)) }
+                    })
+                    .collect();
+                let old = Column { buf: &buf, spans: old_spans };
+                let new = Column { buf: &buf, spans: new_spans };
+                let (lo, ln) = (old.spans.len(), new.spans.len());
+                let cells = |c: &Column| -> Vec<String> { (0..c.spans.len()).map(|i| c[i].to_string()).collect() };
+                let ctx = || format!("buffer {:?} old cells {:?} new cells {:?}", buf, cells(&old), cells(&new));
+                out.sample(ctx);
+                out.nontrivial(&(&buf, &old.spans, &new.spans));
+                out.eval();
+                let r = guard(|| {
+                    let idd = IdentifyDistinct::<u32>::new(&old, 0..lo, &new, 0..ln);
+                    let (ol, nl) = (idd.old_lookup(), idd.new_lookup());
+                    let mut fails: Vec<String> = Vec::new();
+                    for i in 0..lo {
+                        for j in 0..lo {
+                            if (ol[i] == ol[j]) != (old[i] == old[j]) {
+                                fails.push(format!("old[{}] = {:?} vs old[{}] = {:?}: ids {} / {}", i, &old[i], j, &old[j], ol[i], ol[j]));
+                            }
+                        }
+                        for j in 0..ln {
+                            if (ol[i] == nl[j]) != (old[i] == new[j]) {
+                                fails.push(format!("old[{}] = {:?} vs new[{}] = {:?}: ids {} / {}", i, &old[i], j, &new[j], ol[i], nl[j]));
+                            }
+                        }
+                    }
+                    for i in 0..ln {
+                        for j in 0..ln {
+                            if (nl[i] == nl[j]) != (new[i] == new[j]) {
+                                fails.push(format!("new[{}] = {:?} vs new[{}] = {:?}: ids {} / {}", i, &new[i], j, &new[j], nl[i], nl[j]));
+                            }
+                        }
+                    }
+                    let alg = ALGS[(lo + ln) % 3];
+                    let through = capture_diff(alg, ol, idd.old_range(), nl, idd.new_range());
+                    let direct = capture_diff(alg, &old, 0..lo, &new, 0..ln);
+                    if through != direct {
+                        fails.push(format!("alg={}: diff through the lookups {} but diff of the columns {}", alg_name(alg), fmt_ops(&through), fmt_ops(&direct)));
+                    }
+                    fails
+                });
+                match r {
+                    Err(p) => out.violation("panic", format!("IdentifyDistinct over unsized cells panicked: {} | {}", p, ctx())),
+                    Ok(fails) => {
+                        if let Some(f) = fails.first() {
+                            out.violation("idd.ids_vs_equality", format!("{} ({} disagreements) | {}", f, fails.len(), ctx()));
+                        }
+                    }
                 }
             },
         ),
